@@ -66,6 +66,8 @@ pub struct TunnelLog {
     pub dropped: bool,
     /// length of the scripted reply head
     pub head_len: usize,
+    /// the client pulled more than head + 1 MiB from an endless reply
+    pub over_limit: bool,
 }
 
 impl TunnelLog {
@@ -209,6 +211,10 @@ impl Read for TunnelPeer {
                     return Ok(n);
                 }
                 Some(Ev::Endless(p)) => {
+                    if log.served > self.head_len.min(1 << 20) + (1 << 20) {
+                        log.over_limit = true;
+                        return Err(io::Error::new(io::ErrorKind::Other, "harness: client pulled more than 1 MiB of an endless reply"));
+                    }
                     let plen = p.len().max(1);
                     for (i, b) in buf.iter_mut().enumerate() {
                         *b = p[(self.off + i) % plen];
